@@ -133,6 +133,7 @@ class SubblockLoop:
     def __init__(self, vc, P, cc, tt):
         self.vc, self.P, self.cc, self.tt = vc, P, cc, tt
         self.W0 = None
+        self.extra_parts = []        # further named conjuncts of the invariant: callables (interp, env, k) -> (name, condition)
 
     def state(self, env, k):
         P = self.P
@@ -197,6 +198,8 @@ class SubblockLoop:
         so = P['src'].fields['start_obs']
         want_so = eq(k, 0) if g['start'] else False
         parts.append(('start_obs', eq(so if isinstance(so, Sym) else Sym.lift(so), want_so if isinstance(want_so, Sym) else Sym.lift(want_so))))
+        for f in self.extra_parts:
+            parts.append(f(interp, env, k))
         return parts
 
     def inv(self, interp, env, k):
